@@ -148,6 +148,11 @@ def gen_cases(rng, n, quick):
                 evs += staggered_events(rng, w, sc, k + 1)
             else:
                 evs += schedule_events(w, sc, k + 1)
+            if k >= 2 and rng.random() < 0.3:
+                # a variable without new samples is left out of the call instead of being given an empty list (also in the first call)
+                for e_ in evs:
+                    if e_["o"] == k + 1 and e_["a"] == "update" and any(e_["w"].values()):
+                        e_["w"] = {v_: b_ for v_, b_ in e_["w"].items() if b_}
             if k > 0:
                 rels.append({"rel": "same_fn", "x": 1, "y": k + 1})
         cases.append(case(objs, evs, rels, kind=kind, diffstart=diffstart))
